@@ -340,6 +340,7 @@ func TestC09(t *testing.T) {
 		}
 		return firstCallCheck()
 	})
+	learnClasses()
 	if !requireHooks(t) {
 		return
 	}
